@@ -10,12 +10,16 @@ License: Apache-2.0
 import math
 
 from datetime import datetime
+from datetime import timedelta
 
 from labella.d3_time import d3_time
 
 d3_identity = lambda x: x
-dt2milli = lambda x: x.timestamp() * 1000.0
-milli2dt = lambda x: datetime.fromtimestamp(x / 1000.0)
+# naive wall-clock values <-> milliseconds since the epoch, independent of the
+# local time zone
+_EPOCH = datetime(1970, 1, 1)
+dt2milli = lambda x: (x - _EPOCH) / timedelta(milliseconds=1)
+milli2dt = lambda x: _EPOCH + timedelta(milliseconds=x)
 
 
 def drange(start, stop, step=1):
@@ -203,8 +207,8 @@ class d3TimeScaleMilliseconds(object):
             map(
                 milli2dt,
                 range(
-                    math.ceil(int(start.timestamp() * 1000) / step) * step,
-                    int(stop.timestamp() * 1000),
+                    math.ceil(int(dt2milli(start)) / step) * step,
+                    int(dt2milli(stop)),
                     step,
                 ),
             )
@@ -460,7 +464,7 @@ class TimeScale(object):
 
     def ticks(self, interval=None, skip=None):
         extent = d3_scaleExtent(self.domain())
-        extent = list(map(lambda x: x.timestamp() * 1000, extent))
+        extent = list(map(dt2milli, extent))
         method = (
             self.tickMethod(extent, 10)
             if interval is None
